@@ -45,4 +45,4 @@ def run_case(spec, rec):
 
 
 def subchecks(tier):
-    return [Sub("constraints", c02.case_strategy(True), run_case, quick=5000, thorough=90000)]
+    return [Sub("constraints", c02.case_strategy(True), run_case, quick=10000, thorough=120000)]
